@@ -605,7 +605,7 @@ Definition check_case (x : ns * impl_res) : bool :=
   | _, _ => false
   end.
 
-(* ------------------------------------------------------------------ the naming loop BEFORE fix ef4cac9
+(* ------------------------------------------------------------------ the naming loop BEFORE fix 11f7d86
    (kept only for Refuted.v): one iteration, the names already taken are not consulted *)
 Definition assign_one_old (st : nstate) (sc : scope) : nstate :=
   match pick_name 1 (last (s_loc sc) "") (n_counts st) [] with
